@@ -212,11 +212,12 @@ pub fn bytes(conf: &Conf, x: &[u8]) -> String {
             const CAT: u8 = 0x20;
             const PACK: u8 = 0x80;
             if flags & STRIPE != 0 {
-                if f.len < 4 {
-                    return "stripe-len:1-3".into();
-                }
+                // the stripes are coded in order: a 0xff is met before the first empty stripe
                 if f.present[255] {
                     return "has-0xff".into();
+                }
+                if f.len < 4 {
+                    return "stripe-len:1-3".into();
                 }
             } else {
                 let p = if flags & PACK != 0 { packed(x, &f) } else { None };
